@@ -15,7 +15,7 @@ EXPLANATION = ('Every member of the program family is re-declared with ref/ref0/
                'unscaled program for every input value.')
 BOUNDS = dict(programs='progfam.library explicit members (11+2) and the implicit ones in converged-state form', scaling_classes='ref>ref0>0 | ref<ref0 | negative ref, ref0=0 | ref0 only | '
               'per-element arrays with mixed signs | res_ref independent of ref (scalar, negative, per-element, 1)', modes='fwd, rev')
-STUBS = ['exact-elimination LU / symx.sparse for the implicit programs']
+STUBS = ['exact-elimination LU / symx.sparse for the implicit programs', 'NonlinearBlockGS._iter_get_norm -> constant (h_nlbgs: one sweep, loop logic is C09)']
 ASSUMPTIONS = ['scaling parameters are concrete rationals (symbolic ref/ref0 in a whole-model run sends z3 into nonlinear search; fully symbolic ref/ref0 are covered at kernel level by C33 and C10)',
                '1e-9 margin: 1.0/(ref-ref0) and unit factors are inexact float constants']
 OUTSIDE = ['iterating Newton/NLBGS itself (converged-state form only)', 'driver scaling (C20)']
@@ -162,6 +162,11 @@ def h_nlbgs(ctx, prog, cls, aitken, use_apply):
     P = make()
     p = P.build(ctx)
     vals = P.set_indeps(ctx, p)
+    # the residual norm only steers the iteration loop (C09's subject); a constant norm makes the solver do exactly maxiter=1
+    # sweeps without asking the solver to compare square roots of symbolic sums
+    for s in p.model.system_iter(include_self=True, recurse=True, typ=om.Group):
+        if isinstance(s.nonlinear_solver, om.NonlinearBlockGS):
+            s.nonlinear_solver._iter_get_norm = lambda: 1.0
     p.run_model()
     out, exp_in, _ = P.reference(ctx, vals)
     for name, want in out.items():
